@@ -298,7 +298,7 @@ fn size_helper(env: &TypeEnv, seen: &mut HashSet<String>, t: &Type) -> Option<us
     Some(match t.as_ref() {
         Var(id) => {
             if seen.insert(id.to_string()) {
-                let ty = env.rec_find_type(id).unwrap();
+                let ty = env.rec_find_type(id).ok()?;
                 let res = size_helper(env, seen, ty)?;
                 seen.remove(id);
                 res
